@@ -150,7 +150,9 @@ def constructScalarCore (ext : Ext) (tag value : String) (m : Mark) : Except Loa
   else if tag == tTimestamp then
     (match ext.yamlTimestamp value with | some r => .ok (.date r) | none => .error (errAt m))
   else if tag == "tag:yaml.org,2002:binary" then
-    (match ext.yamlBinary value with | some r => .ok (.bytes r) | none => .error (errAt m))
+    (match ext.yamlBinary value with
+     | some r => .ok (.bytes r)
+     | none => .error (.yaml "ConstructorError"))    -- PyYAML reports bad base64 itself
   else .error (.yaml "ConstructorError")     -- no constructor for this tag
 
 /-! ### merge keys (`SafeConstructor.flatten_mapping`) -/
